@@ -119,7 +119,8 @@ let () =
            let rs = match r with
              | MIt (_, Some s) | MRef (_, s) -> string_of_int (int_of_nat s)
              | _ -> "-" in
-           emit (Printf.sprintf "%s | %s | %s r %s" (res_str (lobs_res w r) seqs (var_of toks)) pub inn rs) in
+           (* `k ok`: the stack of List::sort stays within the logarithmic bound (sort_as_coded_depth_log) *)
+           emit (Printf.sprintf "%s | %s | %s r %s k ok" (res_str (lobs_res w r) seqs (var_of toks)) pub inn rs) in
          match st with
          | SL w -> let (w', r) = lstep !key w (parse_lop toks) in node_line "L" w' r; SL w'
          | SP w -> let (w', r) = pstep w (parse_pop !isrec toks) in node_line "P" w' r; SP w'
